@@ -114,6 +114,10 @@ fn denote(step: &RunStep) -> Out {
     }
 }
 
+pub fn parse_value_pub(text: &str) -> Result<T, String> {
+    parse_value(text)
+}
+
 fn parse_value(text: &str) -> Result<T, String> {
     let t = text.to_string();
     let r = catch(move || parse_sexp(Srcloc::start("*row*"), t.bytes()).map_err(|e| e.1));
